@@ -511,7 +511,7 @@ def run(ctx):
                              'harness used for this example are not (a superset of) Model/Layout.v boundary_shifts, or a row of '
                              'the example is not put on a target row (Props/C08.v c08_boundary_shifts_cover)', 'case': cases[cid],
                              'file': cases[cid]['files'][fi]['name'], 'shifts_used': covers[(r8 or r9)[0]][4],
-                             'targets': cases[cid]['shift_targets'], 'n_mismatches': len(r8) + len(r9)}, no_input=True)
+                             'targets': cases[cid].get('shift_targets'), 'n_mismatches': len(r8) + len(r9)}, no_input=True)
     if th is not None:
         th.join()
         phase('wait_for_line_table_tie')
@@ -571,14 +571,14 @@ def run(ctx):
         'coq_cases': len(items), 'coq_cases_full_text': len(items_full), 'coq_cases_by_digest': len(digs),
         'mismatch_text_model': len(r1) + len(r5), 'mismatch_rows': len(r2), 'mismatch_location_text': len(r3),
         'boundary_shift_results': len(shift_res),
-        'boundary_shift_targets': dict(collections.Counter(str(c['shift_targets']) + '/' + c['shift_rows'] for c in cases)),
+        'boundary_shift_targets': dict(collections.Counter(str(c.get('shift_targets')) + '/' + str(c.get('shift_rows')) for c in cases)),
         'rows_put_on_row_9': crossing(9), 'rows_put_on_row_99': crossing(99), 'rows_put_on_row_999': crossing(999),
         'shift_selection_cases': len(covers), 'mismatch_shift_selection': len(r8) + len(r9),
         'verdict_failures': sum(len(v) for v in bad.values()), 'batch_vs_single_mismatches': len(batch_mismatch),
         'table_problems': problems[:10], 'phase_seconds': phases,
         'samples': sample,
-        'exhaustive': 'over the docs table x the grammar up to the depth of the tier (quick: identity + 3 single '
-                      'transformations; thorough: all compositions up to depth 3 over {P1,P3,P10,T1,C,A}, depth 2 for '
+        'exhaustive': 'over the docs table x the grammar up to the depth of the tier (quick: identity + 4 single '
+                      'transformations P3, P9, C, A; thorough: all compositions up to depth 3 over {P1,P3,P10,T1,C,A}, depth 2 for '
                       'scenarios that cannot share a lint call: several files / aggregate / path-dependent) + the boundary '
                       'shifts T<t - r> of every row r of every example for t = 9, 99 (, 999) (Model/Layout.v boundary_shifts; '
                       'quick tier, examples that need a lint call per embedding: non-blank rows, t = 9); not over policies',
